@@ -16,22 +16,26 @@ def uenv_ops(strings):
         for i in range(n):
             for j in range(i + 1, n + 1):
                 subs.add(s[i:j])
-    for c in sorted(chars):
-        f = (1 if c.isalpha() else 0) + (2 if c.isdigit() else 0) + (4 if c.isupper() else 0)
-        if f:
-            ops.append(f"dt.cp {ord(c)} {f}")
     try:
         from lib_trainer.detection_rules.case_util import lower_keep_length
     except ImportError:      # a tree without the helper lower-cases with str.lower()
         lower_keep_length = str.lower
+    lops = []
     for t in sorted(subs):
         lo = t.lower()
         lk = lower_keep_length(t)
+        # lower-casing a substring can produce characters its context does not (final sigma): they need their flags too
+        chars.update(lo)
+        chars.update(lk)
         if lk != t:
-            ops.append(f"dt.lower {cps(t)} {cps(lk)}")
+            lops.append(f"dt.lower {cps(t)} {cps(lk)}")
         if lo != t:
-            ops.append(f"dt.lowerpy {cps(t)} {cps(lo)}")
-    return ops
+            lops.append(f"dt.lowerpy {cps(t)} {cps(lo)}")
+    for c in sorted(chars):
+        f = (1 if c.isalpha() else 0) + (2 if c.isdigit() else 0) + (4 if c.isupper() else 0)
+        if f:
+            ops.append(f"dt.cp {ord(c)} {f}")
+    return ops + lops
 
 
 def mw_ops(mw):
